@@ -169,7 +169,7 @@ def pipeline_cases(draw):
             # free text, also text that spells another step kind (only the part before the dot names the kind)
             steps[i][0] = steps[i][0] + draw(st.sampled_from([".only", ".validation", ".before_validation", ".multiscale",
                                                               ".no_filter", ".matching_cost_2"]))
-    ops = ["check"] + draw(st.lists(st.sampled_from(["check", "run", "run", "check_perm", "check_sub"]), min_size=1, max_size=4))
+    ops = ["check"] + draw(st.lists(st.sampled_from(["check", "run", "run", "check_perm", "check_sub", "check_other"]), min_size=1, max_size=4))
     perm_seed = draw(st.integers(0, 1000))
     edit = draw(st.sampled_from(["swap", "delete", "duplicate", "insert"]))
     return {"pair": pair, "pipeline": steps, "disp": [draw(st.integers(-3, 0)), draw(st.integers(0, 3))], "ops": ops,
@@ -234,9 +234,9 @@ def pipeline_body(ctx: Ctx, p: dict) -> None:
     first_checked = first_margins = first_trace = first_left = first_right = None
     n_ok = 0
     checked = None
-    sub_used = mirrored = False
+    sub_used = mirrored = compare_fresh = False
     for op in p["ops"]:
-        if op in ("check_perm", "check_sub"):
+        if op in ("check_perm", "check_sub", "check_other"):
             i_d = kinds.index("disparity")
             rot = 1 + p.get("perm_seed", 0) % 3
             if op == "check_perm":
@@ -246,6 +246,14 @@ def pipeline_body(ctx: Ctx, p: dict) -> None:
                 post = post[rot % len(post):] + post[:rot % len(post)] if post else post
                 steps = [steps[0]] + cvp + [steps[i_d]] + post
                 what = "re-ordered on a used machine"
+            elif op == "check_other":
+                # the same steps with ANOTHER matching cost (measure and window) on the machine that has history
+                old_mc = steps[0][1]
+                new_mc = dict(old_mc, matching_cost_method="ssd" if old_mc.get("matching_cost_method") != "ssd" else "sad",
+                              window_size=1 if old_mc.get("window_size", 5) != 1 else 3)
+                steps = [[steps[0][0], new_mc]] + [list(s_) for s_ in steps[1:]]
+                what = "another matching cost on a used machine"
+                sub_used = True
             else:
                 # a shorter pipeline on the machine that has history: one or two optional steps dropped
                 drop = [i for i, k in enumerate(kinds) if k in ("aggregation", "filter", "refinement", "validation")]
@@ -258,6 +266,7 @@ def pipeline_body(ctx: Ctx, p: dict) -> None:
             kinds = [dfa.kind_of(n) for n in names]
             has_val = "validation" in kinds
             tag = f"names={names} ns={ns} ({what})"
+            compare_fresh = True
             fresh = drive.check_pipeline(PandoraMachine(), gen.pipe_dict(steps), l, r)
             first_checked = first_margins = first_trace = first_left = first_right = None
             op = "check"
@@ -318,6 +327,15 @@ def pipeline_body(ctx: Ctx, p: dict) -> None:
             exp_calls = n_stub * ns * (2 if has_val else 1)
             if len(stubs.CALLS) != exp_calls:
                 ctx.violation("C01/plugin-step-call-count", f"{tag}: {len(stubs.CALLS)} calls, expected {exp_calls}")
+            if compare_fresh:
+                # the machine has a history with another pipeline: its products are those of a machine without history
+                compare_fresh = False
+                n_calls = len(stubs.CALLS)
+                ref_run = drive.run_pipeline(kw["left"], kw["right"], gen.pipe_dict(steps), tuple(p["disp"]),
+                                             msk_left=kw["msk_left"], msk_right=kw["msk_right"])
+                del stubs.CALLS[n_calls:]
+                if not products_equal(ref_run.left, lo) or not products_equal(ref_run.right, ro):
+                    ctx.violation("C01/run-depends-on-machine-history", f"{tag}: products differ from those of a fresh machine")
             if first_trace is None:
                 first_trace, first_left, first_right = trace, lo.copy(deep=True), ro.copy(deep=True)
                 if has_val and "disparity_map" in ro:
